@@ -552,6 +552,28 @@ pub async fn run(ctx: &Ctx) {
             }
         }
     }
+    // ---- close() with the handle kept ----------------------------------------------------------------
+    // "sockets owned by the connection are released within bounded time" must not depend on the application also
+    // dropping the closed object: whatever state the connection ended in (closed, failed after a lost lower layer,
+    // still connected in a control run), the application now calls close() on every handle it still holds and keeps
+    // it; 5 virtual s later no socket of that host may be open.
+    {
+        let held: Vec<usize> = (0..2).filter(|s| pcs_opt[*s].is_some()).collect();
+        for s in held.iter() {
+            pcs_opt[*s].as_ref().unwrap().close();
+        }
+        if !held.is_empty() {
+            tokio::time::sleep(Duration::from_millis(5000)).await;
+        }
+        for s in held {
+            let ip: std::net::IpAddr = if s == 0 { "10.0.0.1".parse().unwrap() } else { "10.0.0.2".parse().unwrap() };
+            let open = ctx.net.live_sockets_of(ip);
+            ctx.stat("probe.close_with_handle_kept", 1);
+            if !open.is_empty() {
+                ctx.violate("C17.released", format!("5000 ms after close() on connection {} (final state before it: {}; the application keeps the closed object) the connection still holds {} socket(s): {:?}", names[s], state_name(final_state[s]), open.len(), &open[..open.len().min(6)]));
+            }
+        }
+    }
     // ---- release ------------------------------------------------------------------------------------
     if let Some(d) = driver.take() {
         d.abort();
